@@ -10,7 +10,56 @@ import (
 	"os"
 
 	"github.com/mimiro-io/datahub/internal/server"
+	ds "github.com/mimiro-io/datahub/internal/service/dataset"
+	"github.com/mimiro-io/datahub/internal/service/types"
 )
+
+// changes_rev: the reverse change reader exactly as web.getChangesHandler drives it
+// (ds.Of(...).At(since).Inverse(); up to limit items; token = NextOffset())
+func changesRev(store *server.Store, dsm *server.DsManager, op server.VerifOp, tokens map[string]int64) (oo server.VerifOpObs) {
+	since := op.Since
+	if op.Reader != "" {
+		since = tokens[op.Reader+"@rev@"+op.Ds]
+	}
+	of, err := ds.Of(server.NewBadgerAccess(store, dsm), op.Ds)
+	if err != nil {
+		oo.Err = err.Error()
+		return
+	}
+	it, err := of.At(types.DatasetOffset(since))
+	if err != nil {
+		oo.Err = err.Error()
+		return
+	}
+	it = it.Inverse()
+	defer it.Close()
+	oo.Ents = []server.VerifEnt{}
+	cnt := 0
+	for it.Next() {
+		oo.Ents = append(oo.Ents, server.VerifOutEntJSON(it.Item()))
+		cnt++
+		if cnt == op.Limit {
+			break
+		}
+	}
+	tok := it.NextOffset()
+	if it.Error() != nil {
+		oo.Err = it.Error().Error()
+		return
+	}
+	oo.Next = int64(tok)
+	if uint64(tok) > 1<<62 {
+		oo.Next = -1 // "from the end" (max uint64) does not fit the JSON number
+	}
+	if op.Reader != "" {
+		tokens[op.Reader+"@rev@"+op.Ds] = oo.Next
+	}
+	return
+}
+
+func init() {
+	server.VerifExtOps["changes_rev"] = changesRev
+}
 
 func main() {
 	dir := os.Args[1]
